@@ -31,10 +31,13 @@ MAXOPS = 60
 SENT = 0xAA
 NF, NP = 2, 3
 
-RULE = ("case = <= 60 requests over 2 File objects and 3 temp paths (open via sopen or new(File,path,mode) in r w a "
+RULE = ("case = <= 60 requests over 2 File objects and 3 temp paths (open via sopen on a heap File, new(File,path,mode), "
+        "sopen on a stack-class $(File, NULL), or a stack-class File around a stream the caller opened, in r w a "
         "r+ w+ a+ and b variants, swrite 0..3*BUFSIZ bytes biased to 0,1,4095..4097,8191..8193,24576, sread, sseek "
-        "(3 origins, targets inside the file, biased to chunk boundaries), stell, seof, sflush, print_to/scan_from "
-        "records of Int/String/Float, sclose, reopen, with blocks (nested <= 2), del, every op on closed Files), "
+        "(3 origins; targets inside the file biased to chunk boundaries, beyond the end up to 2^40 with reads (EOF) "
+        "and writes (zero gap, file <= 64 KiB) there, and before the start, which fails), stell, seof, sflush, "
+        "print_to/scan_from records of Int/String(<= 100 chars)/Float, one scan_from over two adjacent records, "
+        "sclose, reopen, with blocks (nested <= 2), del (stack-class Files: sclose), every op on closed Files), "
         "made valid stdio by plan(); executed on the Cello File and a stdio twin. non-trivial = (>= 2 non-empty "
         "writes with a seek or (re)open between them and a read-back of >= 2 bytes strictly spanning a boundary "
         "between two write chunks) or (an op applied to an existing File that is not open). distinct = distinct case JSON.")
@@ -46,7 +49,15 @@ ASSUMPTIONS = ["glibc stdio: fopen(a) reports ftell = size, fopen(a+) starts rea
                "formats belong to C15",
                "after output on an update stream a flush or seek precedes input and vice versa (C11 7.21.5.3p7); "
                "sflush is only issued on streams whose last operation was not input",
-               "fclose failure (disk full) is not injected in this tier"]
+               "a seek to a negative position fails in the C library and leaves the stream unchanged; sseek may report it "
+               "(IOError) or not - only the agreement of stell/seof with the twin afterwards is demanded",
+               "stack-class Files ($(File, NULL), $(File, fp) as the library itself uses for stdout) are closed with "
+               "sclose and never passed to del",
+               "print_to / scan_from with an empty format on a File that is not open do not reach the File and do not "
+               "raise in the pinned tree; not generated (every record has at least one conversion or literal)",
+               "fclose failure (disk full) is injected through the interposed fclose (request `failclose`): the stream is "
+               "gone whatever fclose returns (C11 7.21.5.1), so the File must count as not open afterwards; whether that "
+               "sclose raises IOError is left open"]
 
 _known = core.load_known().get(ID, {})
 KEY_CLOSE = "sclose-on-closed"
@@ -113,7 +124,10 @@ class MPath:
             return
         end = pos + n
         if pos > len(self.content):
-            raise HarnessBug("model write beyond end")
+            # writing after a seek beyond the end: the gap reads as zero bytes (a chunk of its own, id 0)
+            gap = (len(self.content), pos, 0)
+            self.content.extend(bytes(pos - len(self.content)))
+            self.chunks.append(gap)
         self.content[pos:end] = data
         new = []
         for (a, b, w) in self.chunks:
@@ -157,13 +171,15 @@ class MStream:
 
 
 class Step:
-    __slots__ = ("line", "kind", "f", "exc", "exp", "acct", "probe", "closed_use", "note", "data")
+    __slots__ = ("line", "kind", "f", "exc", "exp", "acct", "probe", "closed_use", "note", "data", "exc_ok")
 
-    def __init__(self, line, kind, f=None, exc=None, exp=None, acct=(0, 0, 0), probe=None, closed_use=False, note=None, data=None):
+    def __init__(self, line, kind, f=None, exc=None, exp=None, acct=(0, 0, 0), probe=None, closed_use=False, note=None,
+                 data=None, exc_ok=None):
         self.line = line
         self.kind = kind
         self.f = f
         self.exc = exc          # expected exception name or None
+        self.exc_ok = exc_ok    # or: the set of admissible outcomes where the statement leaves it open
         self.exp = exp or {}    # expected fields (Cello side and twin side)
         self.acct = acct        # (fo, fx, fc)
         self.probe = probe      # (pos, eof) expected after the op when the File is open
@@ -175,7 +191,7 @@ class Step:
 class Plan:
     def __init__(self, case):
         self.paths = [MPath() for _ in range(NP)]
-        self.present = [False] * NF
+        self.present = [False] * NF      # False | "heap" | "stack" (a stack-class File is never del'd)
         self.stream = [None] * NF
         self.steps = []
         self.withs = []          # stack of [fi, remaining requests]
@@ -223,7 +239,7 @@ class Plan:
     def ensure(self, f):
         if not self.present[f]:
             self.add("alloc %d" % f, "alloc", f, exp={"open": "0"})
-            self.present[f] = True
+            self.present[f] = "heap"
 
     def closed_step(self, line, kind, f, exp=None):
         """an op on an existing File that is not open: IOError, nothing else happens"""
@@ -266,11 +282,21 @@ class Plan:
             self.do_seek(f, 1, s.pos)
 
     # -- concrete ops on an open stream --
-    def do_seek(self, f, origin, target):
+    def do_seek(self, f, origin, target, clip=True):
         s = self.stream[f]
         size = self.size(f)
-        target = max(0, min(size, target))
+        if clip:
+            target = max(0, min(size, target))
         base = 0 if origin == 0 else s.pos if origin == 1 else size
+        if target < 0:
+            # fseek to a negative position fails and leaves the stream as it was (C library); whether sseek
+            # reports that is not stated: no exception or IOError.  What must hold is the agreement of
+            # stell / seof with the twin afterwards (probe).
+            self.events.add("seek-negative")
+            return self.add("sseek %d %d %d" % (f, target - base, origin), "sseek", f, exp={"tr": "-1"},
+                            probe=self.pr(f), exc_ok=(None, "IOError"))
+        if target > size:
+            self.events.add("seek-beyond-end" if target < 2 ** 31 else "seek-beyond-2^31")
         s.pos = target
         s.eof = False
         s.last = None
@@ -291,6 +317,8 @@ class Plan:
             return                 # fwrite(buf, 0, 1, f) does not touch the stream
         if s.append:
             s.pos = len(p.content)
+        elif s.pos > len(p.content):
+            self.events.add("write-leaves-gap")
         self.wid += 1
         p.put(s.pos, data, self.wid)
         s.pos += len(data)
@@ -311,16 +339,23 @@ class Plan:
         busy = self.stream[other].pid if self.stream[other] is not None else None
         if pid == busy:
             pid = [p for p in range(NP) if p != busy][pid % (NP - 1)]
-        if how == "new" and self.in_with(f):
+        if how in ("new", "stack", "adopt") and self.in_with(f):
             how = "sopen"
-        if how == "new":
-            if self.present[f]:
-                self.rq_del(f)
-        else:
-            self.ensure(f)
         p = self.paths[pid]
         base = mode.replace("b", "")
         ok = mode in MODES_OK and (base[0] != "r" or p.exists)
+        if how == "adopt" and not ok:
+            how = "stack"                    # nothing to adopt: a closed stack-class File, then a failing sopen
+        if how in ("new", "stack", "adopt"):
+            if self.present[f]:
+                self.rq_del(f)
+            if how == "stack":
+                self.add("salloc %d" % f, "salloc", f, exp={"open": "0"})
+                self.present[f] = "stack"
+                self.events.add("stack-file")
+                how = "sopen"
+        else:
+            self.ensure(f)
         if self.excl and not ok and self.in_with(f):
             return self.rq_tell(f)           # would leave the with block on a closed File (known finding)
         fc = 0
@@ -330,7 +365,7 @@ class Plan:
             self.stream[f] = None
             self.events.add("reopen")
         self.sep_since_write = True
-        line = "%s %d %d %s" % ("new" if how == "new" else "sopen", f, pid, mode)
+        line = "%s %d %d %s" % (how if how in ("new", "adopt") else "sopen", f, pid, mode)
         if ok:
             if base[0] == "w":
                 p.truncate()
@@ -339,11 +374,13 @@ class Plan:
             if base == "a":
                 s.pos = len(p.content)        # glibc: ftell reports the end for "a", 0 for "a+"
             self.stream[f] = s
-            self.present[f] = True
+            self.present[f] = "stack" if how == "adopt" else (self.present[f] or "heap")
             self.total_open += 1
             self.events.add("mode:" + base)
+            if how == "adopt":
+                self.events.add("adopted-stream")
             exp = {"open": "1", "topen": "1"}
-            if how != "new":
+            if how not in ("new", "adopt"):
                 exp["ret"] = "self"
             self.add(line, how, f, exp=exp, acct=(1, 0, fc), probe=self.pr(f))
         else:
@@ -443,6 +480,10 @@ class Plan:
         elif k == "bound":
             bs = self.paths[s.pid].bounds()
             t = (bs[sel[1] % len(bs)] + sel[2]) if bs else sel[1]
+        elif k == "far":                   # beyond the end of the file (allowed: reads see EOF, writes leave a gap)
+            return size + sel[1] if sel[1] < 2 ** 20 else sel[1]
+        elif k == "neg":                   # before the start of the file: the seek fails
+            return -sel[1]
         else:
             raise HarnessBug("selector " + str(sel))
         return max(0, min(size, t))
@@ -453,7 +494,7 @@ class Plan:
         if s is None:
             off = sel[1] if sel[0] in ("abs", "cur") else 0
             return self.closed_step("sseek %d %d %d" % (f, off, origin), "sseek", f, {"tr": "-"})
-        self.do_seek(f, origin, self._target(f, sel))
+        self.do_seek(f, origin, self._target(f, sel), clip=sel[0] not in ("far", "neg"))
 
     def rq_span(self, f, j, before, after):
         """read-back spanning a chunk boundary"""
@@ -575,6 +616,13 @@ class Plan:
             return self.rq_tell(f)
         off = sorted(recs)[which % len(recs)]
         items, ln = recs[off]
+        if how and (off + ln) in recs:
+            # two records written one after the other, read back by one scan_from call: the newline that ends
+            # the first one is a white-space directive of the format
+            items2, ln2 = recs[off + ln]
+            items = list(items) + [["l", "0a"]] + list(items2)
+            ln += ln2
+            self.events.add("scan-two-records")
         self.do_seek(f, 0, off)
         words, vals = self._scan_words(items)
         s.pos = off + ln - 1
@@ -594,10 +642,32 @@ class Plan:
         self.events.add("sclose")
         self.add("sclose %d" % f, "sclose", f, exp={"open": "0"}, acct=(0, 0, 1))
 
+    def rq_failclose(self, f):
+        """fault injection (see ASSUMPTIONS): the C library reports a failure from the fclose that
+        sclose performs.  The stream is gone whatever fclose returns (C11 7.21.5.1), so the File must count as not
+        open afterwards; whether sclose raises is left open."""
+        self.ensure(f)
+        if self.stream[f] is None or self.in_with(f):
+            return self.rq_tell(f)
+        self.add("failclose", "failclose")
+        self.stream[f] = None
+        self.total_close += 1
+        self.events.add("fclose-fails")
+        self.add("sclose %d" % f, "sclose", f, exp={"open": "0"}, acct=(0, 0, 1), exc_ok=(None, "IOError"))
+
     def rq_del(self, f):
         if self.in_with(f):
             return self.rq_close(f)
         self.ensure(f)
+        if self.present[f] == "stack":
+            # never del'd: closed with sclose when open, then dropped by the executor
+            if self.stream[f] is not None:
+                self.stream[f] = None
+                self.total_close += 1
+                self.events.add("sclose")
+                self.add("sclose %d" % f, "sclose", f, exp={"open": "0"}, acct=(0, 0, 1))
+            self.present[f] = False
+            return self.add("forget %d" % f, "forget", f, exp={"open": "0"})
         fc = 0
         if self.stream[f] is not None:
             fc = 1
@@ -717,7 +787,10 @@ def _run_case(ctx, case, tmpdir):
                 raise HarnessBug("twin ftell/feof %s,%s differ from model %s at op #%d `%s` (case %s)" %
                                  (pp[1], pp[3], s.probe, i, _short(s.line), [_short(x.line) for x in steps[:i + 1]]))
         # -- Cello against model and twin
-        if o["_exc"] != s.exc:
+        if s.exc_ok is not None:
+            if o["_exc"] not in s.exc_ok:
+                return fail(i, "expected one of %s, observed %s" % (sorted(str(x) for x in s.exc_ok), o["_exc"]))
+        elif o["_exc"] != s.exc:
             if s.closed_use:
                 return fail(i, "File is not open: expected IOError, observed %s" % (o["_exc"] or "no exception"))
             return fail(i, "expected %s, observed %s" % (s.exc or "no exception", o["_exc"] or "no exception"))
@@ -764,11 +837,11 @@ def _run_case(ctx, case, tmpdir):
         o = _parse(tail[ti])
         ti += 1
         if o["_exc"] is not None:
-            return fail(None, "del of File %d raised %s" % (f, o["_exc"]))
+            return fail(None, "final del (stack-class File: sclose) of File %d raised %s" % (f, o["_exc"]))
         if o.get("bad", "0") != "0":
-            return fail(None, "del of File %d called fclose on a %s handle" % (f, o.get("badk")))
+            return fail(None, "final del (stack-class File: sclose) of File %d called fclose on a %s handle" % (f, o.get("badk")))
         if int(o.get("fc", 0)) != fc or int(o.get("fo", 0)) != 0:
-            return fail(None, "del of File %d (%s): %s fclose calls, expected %d" % (f, "open" if fc else "closed", o.get("fc"), fc))
+            return fail(None, "final del (stack-class File: sclose) of File %d (%s): %s fclose calls, expected %d" % (f, "open" if fc else "closed", o.get("fc"), fc))
     if ti >= len(tail) or not tail[ti].startswith("final acct"):
         raise HarnessBug("missing final acct line: %s" % tail)
     a = _parse(tail[ti])
@@ -810,19 +883,26 @@ def SAMPLE(case):
 
 _FI = st.sampled_from([0, 0, 0, 1])
 _PID = st.integers(0, NP - 1)
-_EDGE = [0, 1, 2, BLK - 1, BLK, BLK + 1, BUFSIZ - 1, BUFSIZ, BUFSIZ + 1, 2 * BUFSIZ, 3 * BUFSIZ]
+_EDGE = [0, 1, 2, BLK - 1, BLK, BLK + 1, BUFSIZ - 1, BUFSIZ, BUFSIZ + 1, 2 * BUFSIZ, 3 * BUFSIZ, BLK - 3, BLK - 9, BUFSIZ - 5]
 _SIZE = st.one_of(st.sampled_from(_EDGE), st.integers(0, 64), st.integers(0, 3 * BUFSIZ))
 _SEED = st.one_of(st.integers(4, 255), st.integers(0, 3))
 _MODE_W = st.sampled_from(["w+", "w+", "w", "wb", "w+b", "wb+", "a+", "a", "ab+"])
 _MODE_R = st.sampled_from(["r", "r", "rb", "r+", "r+b", "rb+", "a+"])
 _MODE = st.one_of(st.sampled_from(MODES_OK), _MODE_W, st.sampled_from(MODES_BAD))
-_HOW = st.sampled_from(["sopen", "sopen", "new"])
+_HOW = st.sampled_from(["sopen", "sopen", "new", "new", "stack", "adopt"])
 _SEL = st.one_of(
     st.tuples(st.just("abs"), st.one_of(st.sampled_from(_EDGE), st.integers(0, MAXFILE))),
     st.tuples(st.just("end"), st.one_of(st.sampled_from([0, 0, 1, BLK, BUFSIZ]), st.integers(0, 3 * BUFSIZ))),
     st.tuples(st.just("cur"), st.one_of(st.sampled_from([0, -1, 1, -BLK, BLK, -BUFSIZ, BUFSIZ]), st.integers(-64, 64))),
     st.tuples(st.just("bound"), st.integers(0, 7), st.sampled_from([0, 0, -1, 1, -2])),
+    st.tuples(st.just("far"), st.one_of(st.sampled_from([1, 2, BLK, BUFSIZ, 2 ** 31 - 1, 2 ** 31, 2 ** 32 + 5, 2 ** 40]),
+                                        st.integers(1, 3 * BUFSIZ))),
+    st.tuples(st.just("neg"), st.sampled_from([1, 1, 2, BLK, 2 ** 31, 2 ** 32 + 1])),
 ).map(list)
+
+_SEL_OUT = st.one_of(
+    st.tuples(st.just("far"), st.sampled_from([1, BLK, 2 ** 31 - 1, 2 ** 31, 2 ** 32 + 5, 2 ** 40])),
+    st.tuples(st.just("neg"), st.sampled_from([1, 2, 2 ** 31, 2 ** 32 + 1]))).map(list)
 
 _QCH = [c for c in range(0x20, 0x7f) if chr(c) not in '"\\\'?'] + [0x80, 0xe9, 0xff]
 _SCH = [c for c in range(0x21, 0x7f) if chr(c) not in '"\\\'?%'] + [0x80, 0xff]
@@ -833,11 +913,24 @@ _INTV = st.one_of(st.integers(-20, 20), st.sampled_from([2**31 - 1, -2**31, 2**3
                   st.integers(-2**63, 2**63 - 1))
 
 
+def _LONGTXT(alphabet):
+    """texts of 30..100 characters (the twin's scan buffer holds 100), lengths around 64 preferred; two draws
+    (length, seed) instead of one per character keep generation cheap"""
+    n = st.one_of(st.sampled_from([63, 64, 65, 100]), st.integers(30, 100))
+
+    def text(t):
+        raw = gen_bytes(4 + t[1], t[0])
+        return bytes(alphabet[c % len(alphabet)] for c in raw).hex()
+    return st.tuples(n, st.integers(0, 50)).map(text)
+
+
 def _value():
     return st.one_of(
         st.tuples(st.sampled_from(["i", "d"]), _INTV),
         st.tuples(st.just("q"), st.lists(st.sampled_from(_QCH), max_size=12).map(lambda l: bytes(l).hex())),
         st.tuples(st.just("s"), st.lists(st.sampled_from(_SCH), min_size=1, max_size=12).map(lambda l: bytes(l).hex())),
+        st.tuples(st.just("q"), _LONGTXT(_QCH)),
+        st.tuples(st.just("s"), _LONGTXT(_SCH)),
         st.tuples(st.sampled_from(["f", "g", "G"]), st.integers(-2**20, 2**20)),
     ).map(list)
 
@@ -875,6 +968,7 @@ def _req():
         st.tuples(st.just("print"), _FI, _record()),
         st.tuples(st.just("scan"), _FI, st.integers(0, 7), st.integers(0, 1)),
         st.tuples(st.just("close"), _FI),
+        st.tuples(st.just("failclose"), _FI),
         st.tuples(st.just("open"), _FI, _PID, _MODE, _HOW),
         st.tuples(st.just("open"), _FI, _PID, _MODE_R, _HOW),
         st.tuples(st.just("with"), _FI, st.integers(0, 5)),
@@ -911,10 +1005,18 @@ def _chunk(f, pid):
         st.just([]),
         st.tuples(st.just("seek"), st.just(f), st.integers(0, 2), _SEL).map(lambda t: [list(t)]),
         st.just([["seek", f, 2, ["end", 0]]]),
+        st.tuples(st.integers(0, 2), st.sampled_from([1, 2, 7, BLK, BUFSIZ + 1])).map(
+            lambda t: [["seek", f, t[0], ["far", t[1]]]]),            # the next write leaves a gap of zero bytes
         st.tuples(amode, _HOW).map(lambda t: [["close", f], ["open", f, pid, t[0], t[1]]]),
         st.just([["flush", f]]),
         amode.map(lambda m: [["open", f, pid, m, "sopen"]]))          # reopen while open
-    return st.tuples(w, sep).map(lambda t: [t[0]] + t[1])
+    one = st.tuples(w, sep).map(lambda t: [t[0]] + t[1])
+    # two records one after the other (read back later by one scan_from call), or a write ending just before a
+    # stdio block boundary followed by a record that straddles it
+    two = st.tuples(_record(), _record()).map(lambda t: [["print", f, t[0]], ["print", f, t[1]]])
+    edge = st.tuples(st.sampled_from([BLK - 3, BLK - 9, BUFSIZ - 5, 2 * BLK - 2]), _SEED, _record()).map(
+        lambda t: [["write", f, t[0], t[1], False], ["print", f, t[2]]])
+    return st.one_of(one, one, one, two, edge)
 
 
 def _back(f, pid):
@@ -932,7 +1034,10 @@ def _readop(f):
         st.tuples(st.just("read"), st.just(f), _SIZE, st.just(False), st.integers(0, 1)),
         st.tuples(st.just("span"), st.just(f), st.integers(0, 7), st.sampled_from([1, 2, 5, BLK, BUFSIZ]), st.sampled_from([1, 3, 9, BLK + 1, 2 * BUFSIZ])),
         st.tuples(st.just("span"), st.just(f), st.integers(0, 7), st.integers(1, 64), st.integers(1, 64)),
-        st.tuples(st.just("scan"), st.just(f), st.integers(0, 7), st.just(0)),
+        st.tuples(st.just("scan"), st.just(f), st.integers(0, 7), st.integers(0, 1)),
+        st.tuples(st.just("scan"), st.just(f), st.integers(0, 7), st.integers(0, 1)),
+        st.tuples(st.just("write"), st.just(f), st.integers(0, 8), _SEED, st.just(True)),     # wrong direction on read-only streams
+        st.tuples(st.just("seek"), st.just(f), st.integers(0, 2), _SEL_OUT),
         st.sampled_from([("tell", f), ("eof", f)]),
         st.tuples(st.just("seek"), st.just(f), st.integers(0, 2), _SEL)).map(list)
 
